@@ -42,6 +42,13 @@ SUPPORTED_CONFIGS = [
 ]
 
 
+# A section header of a bumpver config, e.g. "[bumpver]", "[tool.bumpver]" or "[pycalver]"
+# (and not just any section whose name happens to end in "bumpver]").
+CONFIG_SECTION_RE = re.compile(
+    rb"^[ \t]*\[(?:tool\.)?(?:bumpver|pycalver)\][ \t]*(?:#[^\n]*)?\r?$", flags=re.MULTILINE
+)
+
+
 class TagScope(str, enum.Enum):
     DEFAULT = "default"
     GLOBAL  = "global"
@@ -79,7 +86,7 @@ def _pick_config_filepath(path: pl.Path) -> pl.Path:
             with config_filepath.open(mode="rb") as fobj:
                 data = fobj.read()
 
-            has_bumpver_section = (b"bumpver]" in data or b"pycalver]" in data) and b"current_version" in data
+            has_bumpver_section = CONFIG_SECTION_RE.search(data) is not None and b"current_version" in data
             if has_bumpver_section:
                 return config_filepath
 
